@@ -48,6 +48,8 @@ func cmdRun(args []string) {
 	loop := fs.Int("loop", 128, "loop unwinding bound")
 	maxPaths := fs.Int("maxpaths", 200000, "path budget")
 	verbose := fs.Bool("v", false, "verbose")
+	maxSecs := fs.Float64("maxsecs", 600, "time budget per harness")
+	tables := fs.String("tables", "", "host tables to build (comma separated)")
 	fs.Parse(args)
 	ov, _, err := prepareOverlay()
 	if err != nil {
@@ -63,6 +65,15 @@ func cmdRun(args []string) {
 	eng.thorough = *thorough
 	eng.loopBound = *loop
 	eng.maxPaths = *maxPaths
+	eng.maxSecs = *maxSecs
+	if *tables != "" {
+		_, files, _ := prepareOverlay()
+		if err := eng.buildHostTables(strings.Split(*tables, ","), files, "quick"); err != nil {
+			fmt.Fprintln(os.Stderr, "host tables:", err)
+			os.Exit(2)
+		}
+	}
+	defer cleanupWork()
 	fmt.Fprintf(os.Stderr, "loaded in %.1fs\n", eng.loadSecs)
 	sp := eng.pkgs[*pkg]
 	if sp == nil {
